@@ -35,7 +35,7 @@ func init() {
 			"(tee branch == main chain from the tee point; echo == stream). non-trivial = some matcher needed >=1 byte and some consumer read >=1 byte; " +
 			"distinct = hash(config shape, segmentation class, stream-length bucket). udp children: 1-3 clients of a scripted packet listener send 1-12 datagrams of 1..4096 bytes each (interleaved, " +
 			"mostly queued at once); routes: optional non-terminal take route (with or without a matcher that needs up to 6000 bytes), consumer route (with or without such a matcher) reading " +
-			"exactly the rest with read sizes 1..9000, optionally inside a subroute; oracle: take read the first bytes, the consumer the rest of the client's datagram stream",
+			"exactly the rest with read sizes 1..9000, optionally inside a subroute; oracle: take read the first bytes, the consumer the rest of the client's datagram stream. prologue handlers (proxy_protocol, tls) may sit in a route of their own, in front of a subroute or chain, or inside a non-terminal subroute that the consuming chain follows",
 		Assumptions: []string{
 			"scripted in-memory transport (vnet) stands in for TCP; segments are delivered one per Read",
 			"third-party handlers are out of scope; only shipped wrapping handlers and harness consumers are composed",
